@@ -411,7 +411,7 @@ theorem anteOK_true {s : State} {t : Tx} {sim : Bool} (h : anteOK s t sim = true
   · simp at h4
   · rename_i verif hv
     simp only [Bool.and_eq_true, beq_iff_eq, decide_eq_true_eq, Bool.or_eq_true] at h4
-    obtain ⟨⟨⟨h5, h6⟩, h7⟩, h8⟩ := h4
+    obtain ⟨⟨⟨⟨h5, h6⟩, _⟩, h7⟩, h8⟩ := h4
     have hkey : ∃ k ∈ s.keys, k.2 = verif := by
       split at hv
       · exact ⟨_, lookup_mem hv, rfl⟩
